@@ -435,7 +435,7 @@ func propModel(t *rapid.T) {
 	}
 	want := canon(w.want)
 	var got []string
-	kit.WaitUntil(2*time.Second, func() bool {
+	kit.WaitUntil(10*time.Second, func() bool {
 		w.gmu.Lock()
 		got = canon(w.got)
 		w.gmu.Unlock()
